@@ -67,6 +67,7 @@ def run(filter_=None, prop=None):
         cases += [(p, 'refactor') for p in sorted(glob.glob(V + '/refactors-independent/%s-s*.patch' % prop)) if os.path.basename(p)[:-6] not in limits]
         # fifth wave (ordinary clean-ups written after all rules existed)
         cases += [(p, 'refactor') for p in sorted(glob.glob(V + '/refactors-independent/%s-v*.patch' % prop)) if os.path.basename(p)[:-6] not in limits]
+        cases += [(p, 'refactor') for p in sorted(glob.glob(V + '/refactors-independent/%s-w*.patch' % prop)) if os.path.basename(p)[:-6] not in limits]
         cases += [(p, 'mutant') for p in sorted(glob.glob(V + '/seeded/%s-*/patch.diff' % prop))]
     for patch, kind in cases:
         cid = os.path.basename(patch)[:-6]
